@@ -60,6 +60,14 @@ def analyse_dst_len(ctx, F, inst, hdr_ty, base, elem, label, size_off=4, size_w=
         return
     rts = G.strip(rt)
     inner = rts
+    if elem == 1 and rts[0] == "saturating" and rts[1] == "Sub" and G.strip(rts[2][1]) == ("c", base) \
+            and is_size_read(F, G.strip(rts[2][0]), hdr_ty, size_off, size_w):
+        ctx.ok("L2", label, "dst_len(%s) == saturating_sub(zext(header.size), %d): size - %d for size >= %d, else 0" % (label, base, base, base),
+               site, how="return term %s" % G.show(rt))
+        ctx.ok("L3", label, "an undersized declaration exposes an empty variable part (never more than the header, which I-BR guarantees to be "
+               "inside the slice); the load path rejects it (C02.A2 / C10: raw total_size() < header -> ShorterThanHeader)", site,
+               how="saturating subtraction")
+        return
     if elem > 1:
         if not (rts[0] == "bin" and rts[1] == "Div" and G.strip(rts[3]) == ("c", elem)):
             ctx.fail("L2", label, "dst_len(%s) == (size - %d) / %d" % (label, base, elem), site, "return term %s" % G.show(rt))
